@@ -104,3 +104,20 @@ Theorem C05_code_state_index_axis_iff_restricted_states : forall (vi0 : list var
   \/ (has_state_indexer plan = false /\ indexer_axis_names plan = None).
 Proof. exact state_index_axis_iff_sparse_states. Qed.
 Print Assumptions C05_code_state_index_axis_iff_restricted_states.
+
+(* ---- the documented layout of the Spec's table IS the layout array of C14's refinement ----------- *)
+From LCM Require Import Proofs.C14_Refine Proofs.C14_OnLayout Proofs.C05_LayoutLookup.
+(* models without filter-restricted variables: shape = discrete sizes ++ continuous sizes (declaration  *)
+(* order within each group) and the entry at [discrete labels] ++ [continuous indices] is the table      *)
+(* entry of the state with those indices                                                                 *)
+Theorem C05_layout_without_filters : forall m p t tab,
+  restricted_names m = [] -> NoDup (map fst (states m)) ->
+  expected_shape m p t = (dsizes (states m) ++ cont_sizes (states m))%list /\
+  forall idx, in_bounds (expected_shape m p t) idx ->
+    get VUndef (to_layout m p t tab) idx
+    = get VUndef tab (merge (states m) (firstn (length (dsizes (states m))) idx) (skipn (length (dsizes (states m))) idx)).
+Proof.
+  intros m p t tab H1 H2. split; [now apply expected_shape_without_filters|].
+  intros idx Hb. now apply to_layout_is_the_layout_array.
+Qed.
+Print Assumptions C05_layout_without_filters.
